@@ -126,7 +126,7 @@ End Expose.
 
 (* ------------------------------------------------------------------ components of the constructed particle *)
 Lemma from_orbit_components : forall tiny G prim m a e t p,
-  trig_ok t -> 0 < G * (m + pm prim) -> shape_ok a e -> -1 < e * cf t -> tiny <= pm prim ->
+  trig_ok t -> 0 < G * (m + pm prim) -> shape_ok a e -> -1 < e * cf t -> tiny < pm prim ->
   from_orbit_err RNum tiny G prim m a e t = inr p ->
   let r := a * (1 - e * e) / (1 + e * cf t) in
   let v0 := sqrt (G * (m + pm prim) / a / (1 - e * e)) in
@@ -139,14 +139,14 @@ Lemma from_orbit_components : forall tiny G prim m a e t p,
   pvz p - pvz prim = v0 * ((e + cf t) * co t * si t - sf t * si t * so t).
 Proof.
   intros tiny G prim m a e t p Ht Hmu Hsh Hcf Htiny Hp. cbv zeta.
-  unfold from_orbit_err in Hp. cbn [neqb nltb none nzero nneg nmul nadd nsub ndiv nsqrt RNum] in Hp.
+  unfold from_orbit_err in Hp. cbn [neqb nltb nleb none nzero nneg nmul nadd nsub ndiv nsqrt RNum] in Hp.
   assert (E0 : Reqb a 0 = false) by (apply Reqb_false; destruct Hsh; lra).
   assert (E1 : Reqb e 1 = false) by (apply Reqb_false; destruct Hsh; lra).
   assert (E2 : Rltb e 0 = false) by (apply Rltb_false; destruct Hsh; lra).
   assert (E3 : (if Rltb 1 e then Rltb 0 a else Rltb a 0) = false).
   { destruct (Rltb 1 e) eqn:K; [apply Rltb_true in K|apply Rltb_false in K]; apply Rltb_false; destruct Hsh; lra. }
   assert (E5 : Rltb (e * cf t) (Ropp 1) = false) by (apply Rltb_false; lra).
-  assert (E6 : Rltb (pm prim) tiny = false) by (apply Rltb_false; lra).
+  assert (E6 : Rleb (pm prim) tiny = false) by (apply Rleb_false; lra).
   rewrite E0, E1, E2, E3, E5, E6 in Hp. injection Hp as Hp. subst p. cbn [pm px py pz pvx pvy pvz].
   assert (Haq : 0 < a * (1 - e*e)).
   { destruct Hsh as [[He Ha]|[He Ha]].
@@ -172,7 +172,7 @@ Hypothesis Hfm : fmod_spec (l_fmod L).
 (* elements -> particle -> elements, generic branch (inc at least MIN_INC away from 0 and pi), e > 0:
    omega and f come back modulo 2 pi (and lie in [0, 2 pi)) *)
 Lemma roundtrip_omega_f : forall tiny G t0 prim m a e t p o inc om f,
-  trig_ok t -> 0 < G * (m + pm prim) -> shape_ok a e -> 0 < e -> -1 < e * cf t -> tiny <= pm prim ->
+  trig_ok t -> 0 < G * (m + pm prim) -> shape_ok a e -> 0 < e -> -1 < e * cf t -> tiny < pm prim ->
   ci t = cos inc -> si t = sin inc -> MIN_INC RNum <= inc <= PI - MIN_INC RNum ->
   co t = cos om -> so t = sin om -> cf t = cos f -> sf t = sin f ->
   from_orbit_err RNum tiny G prim m a e t = inr p ->
@@ -288,7 +288,7 @@ Qed.
 (* bound orbits: the mean anomaly read back is E - e sin E (mod 2 pi) for the eccentric anomaly E that belongs to f,
    and T is read back as t0 - (E - e sin E)/n up to whole periods.  No condition on inc. *)
 Lemma roundtrip_M_T : forall tiny G t0 prim m a e t p o f E,
-  trig_ok t -> 0 < G * (m + pm prim) -> 0 < e < 1 -> 0 < a -> -1 < e * cf t -> tiny <= pm prim ->
+  trig_ok t -> 0 < G * (m + pm prim) -> 0 < e < 1 -> 0 < a -> -1 < e * cf t -> tiny < pm prim ->
   cf t = cos f -> sf t = sin f ->
   cos E = (e + cos f) / (1 + e * cos f) -> sin E = sqrt (1 - e*e) * sin f / (1 + e * cos f) ->
   from_orbit_err RNum tiny G prim m a e t = inr p ->
@@ -363,7 +363,7 @@ Qed.
    whole turns and f is the true anomaly of E -- the T read back at the same simulation time is Tin up to whole
    periods.  (Exactness of the Newton solver is the only hypothesis left; see C11_kepler_residual_*.) *)
 Lemma roundtrip_T : forall tiny G t0 prim m a e t p o f E Tin (j : Z),
-  trig_ok t -> 0 < G * (m + pm prim) -> 0 < e < 1 -> 0 < a -> -1 < e * cf t -> tiny <= pm prim ->
+  trig_ok t -> 0 < G * (m + pm prim) -> 0 < e < 1 -> 0 < a -> -1 < e * cf t -> tiny < pm prim ->
   cf t = cos f -> sf t = sin f -> l_sin L = sin ->
   cos E = (e + cos f) / (1 + e * cos f) -> sin E = sqrt (1 - e*e) * sin f / (1 + e * cos f) ->
   E - e * sin E = sqrt (G * (m + pm prim) / (a*a*a)) * (t0 - Tin) + IZR j * (2 * PI) ->
@@ -385,7 +385,7 @@ Lemma cosh_even : forall x, cosh (- x) = cosh x.
 Proof. intro x. unfold cosh. rewrite Ropp_involutive. unfold Rdiv; ring. Qed.
 
 Lemma roundtrip_T_hyperbolic : forall tiny G t0 prim m a e t p o f H,
-  trig_ok t -> 0 < G * (m + pm prim) -> 1 < e -> a < 0 -> -1 < e * cf t -> tiny <= pm prim ->
+  trig_ok t -> 0 < G * (m + pm prim) -> 1 < e -> a < 0 -> -1 < e * cf t -> tiny < pm prim ->
   cf t = cos f -> sf t = sin f ->
   (forall x, 0 <= x -> l_acosh L2 (cosh x) = x) -> l_sinh L = sinh ->
   cosh H = (e + cos f) / (1 + e * cos f) -> sinh H = sqrt (e*e - 1) * sin f / (1 + e * cos f) ->
